@@ -548,3 +548,42 @@ int main(void)
 	return 0;
 }
 #endif
+
+#ifdef SIDE_OCT
+/* process_octet() driven directly: oct key bytes = reference base64url decoding of k */
+int __CPROVER_file_local_jwks_c_process_octet(json_t *jwk, jwk_item_t *item);
+
+int main(void)
+{
+	static const char *const va[] = { "k" };
+	static jwk_item_t item;
+	json_t *o;
+	const json_t *jk;
+	unsigned char ref[VJ_SLEN];
+	int r, rn = -1;
+	unsigned i, same = 1;
+
+	vf_install_alloc();
+	o = vj_havoc_object(va, 1, 0);
+	memset(&item, 0, sizeof(item));
+	item.kty = JWK_KEY_TYPE_OCT;
+	r = __CPROVER_file_local_jwks_c_process_octet(o, &item);
+	jk = json_object_get(o, "k");
+	if (jk && jk->type == JSON_STRING)
+		rn = ref_b64url_decode(VJ(jk)->s, VJ_SLEN, ref, VJ_SLEN);
+	if (rn <= 0) {
+		PROP(r != 0 && item.error && item.error_msg[0] != '\0' && item.oct.key == NULL, "C07: an oct JWK without a decodable string k is refused with a message");
+	} else {
+		PROP(r == 0 && !item.error, "C08: a well-formed oct key is imported");
+		PROP(item.oct.len == (size_t)rn && item.bits == 8 * (size_t)rn, "C08/C09: oct length and size in bits are those of the decoded k");
+		for (i = 0; i < VJ_SLEN; i++)
+			if ((int)i < rn && ((unsigned char *)item.oct.key)[i] != ref[i])
+				same = 0;
+		PROP(same, "C08: oct bytes equal the base64url decoding of k");
+		PROP(item.is_private_key && item.provider == JWT_CRYPTO_OPS_ANY, "C08: an oct key is a private (symmetric) key usable under any provider");
+	}
+	REACH(r == 0 && rn == 9, "nine key bytes imported");
+	REACH(r != 0 && jk && jk->type == JSON_STRING, "undecodable k refused");
+	return 0;
+}
+#endif
